@@ -52,6 +52,10 @@ def check(ix, rep):
     only = _Only(rep, ('R-UNITDOM',))
     units.check_transformer(ix, only, 'rtamt.semantics.discrete_time_interpreter', 'DiscreteTimeInterpreter', 'discrete')
     units.check_transformer(ix, only, 'rtamt.semantics.dense_time_interpreter', 'DenseTimeInterpreter', 'dense')
+    # "bound constants declared" is a statement about this specification: no class- or module-level table in the parser carries declarations over
+    from sa.rules import globals as _G14
+    _G14.fixture_selfcheck(rep)
+    rep.floor('syntax modules scanned for shared state', _G14.run_global(ix, rep, prefix='rtamt.syntax'), 30)
     explanation = (
         'The "fails only cleanly, never silently accepts" half is decided structurally. R-LISTENER: before the entry rule is invoked both '
         'the ANTLR lexer and parser have their default listeners replaced by one whose syntaxError unconditionally raises RTAMTException, every '
